@@ -444,14 +444,14 @@ def gen_wide(rng, tier):
         u = B.Universe(desc)
         _UNIS[u.modname] = u
         ctx = u.export_ctx()
-        yield {"ctx": ctx, "value": value, "clazz": "Root", "desc": desc, "_uni": u.modname, "feat": W.FEAT, "frag": "F9"}
+        yield {"ctx": ctx, "value": value, "clazz": "Root", "desc": desc, "_uni": u.modname, "feat": W.FEAT, "frag": "F10"}
         for name, feat in sorted(W.FRAGMENTS.items()):
-            if name != "F9":
+            if name != "F10":
                 yield {"ctx": ctx, "value": value, "clazz": "Root", "desc": desc, "_uni": u.modname, "feat": feat, "frag": name}
     for k in range(n_cases(tier, 120, 800)):
         # half of the universes use every feature (hypotheses of F8), the others are drawn for one of the
         # smaller fragments, whose `ctxOK` / `valOK` are evaluated on them
-        frag, feat = ("F9", dict(W.FEAT)) if k % 2 == 0 else W.pick_feat(rng)
+        frag, feat = ("F10", dict(W.FEAT)) if k % 2 == 0 else W.pick_feat(rng)
         u, desc, ctx = new_universe(rng, W.WIDE_FEATURES if k % 2 == 0 else W.features_for(rng, feat))
         for _ in range(5):
             try:
@@ -480,9 +480,9 @@ def impl_valFN(a):
 
 CORRS.append(
     Corr("c01.valFN", gen_wide, impl_valFN,
-         classify=lambda a, o: a.get("frag", "F9") + " " + json.dumps(o.get("ok"), sort_keys=True)
+         classify=lambda a, o: a.get("frag", "F10") + " " + json.dumps(o.get("ok"), sort_keys=True)
          + (" +generic" if '"any"' in json.dumps(a["value"]) else ""),
-         describe="hypotheses ctxOK/valOK of bind_generate_F2..F9 on exported real universes and instances vs the oracle's "
+         describe="hypotheses ctxOK/valOK of bind_generate_F2..F10 on exported real universes and instances vs the oracle's "
                   "description of the excluded regions")
 )
 
@@ -627,12 +627,12 @@ LEVEL_TEXT = (
     "Partial. generate -> abstract writer -> parseRoot is the identity, with no converter warning, for every parser config, both "
     "settings of ignore_default_attributes and every Unicode Env: bind_generate_F1 / bind_generate_anyNamespaces (Props/C01.lean: "
     "attributes, primitive- and model-typed elements optional/required/list, a text var, every combination of class and field "
-    "namespaces) and bind_generate_F2..F9 / bind_generate_FN (Props/C01Wide.lean: + nillable vars and classes, token lists, wrapper "
+    "namespaces) and bind_generate_F2..F10 / bind_generate_FN (Props/C01Wide.lean: + nillable vars and classes, token lists, wrapper "
     "lists, sequence groups, one Attributes map per class, init=False fields, instances of proper subclasses with xsi:type resolved "
-    "through the prefix map, one wildcard per class (a list, or a single generic element) holding generic elements in the parser's normal form, element vars whose type is a union of str/int/bool), under decidable hypotheses ctxOK (universe) and valOK/valOKI (instance) that the driver evaluates on "
+    "through the prefix map, one wildcard per class (a list, or a single generic element) holding generic elements in the parser's normal form, element vars whose type is a union of str/int/bool, QName-typed element vars), under decidable hypotheses ctxOK (universe) and valOK/valOKI (instance) that the driver evaluates on "
     "exported real universes; each remaining value-level exclusion that is a defect has a machine-checked witness replayed on the "
     "real code, the eight defects repaired by repo-patches c01g-01..08 have *_repaired theorems. Outside these fragments ("
-    "tails of generic elements, mixed wildcards, anyType, compound fields, unions with classes or in attributes, QName-typed and non str/int/bool values, DerivedElements, a text var next to "
+    "tails of generic elements, mixed wildcards, anyType, compound fields, unions with classes or in attributes, QName-typed attributes and text, non str/int/bool/QName values, DerivedElements, a text var next to "
     "child elements) the executable model is compared with the real generator, parser and the four writer x handler combinations, "
     "but no round-trip theorem is claimed yet."
 )
